@@ -353,28 +353,35 @@ def _grid(case, ctx, obj, model, desc, pts, scale, feats):
     sub = [(float(lo + (hi - lo) * a), float(lo + (hi - lo) * b)) for (lo, hi), (a, b) in zip(doms, fr)]
     # where 0.0 lies strictly inside a kept domain, 0.0 itself is the requested start (a limit that is falsy as a number)
     sub = [((0.0, s1) if lo < 0 < hi and s1 > 0 else (s0, s1)) for (s0, s1), (lo, hi) in zip(sub, doms)]
-    rc = dict(case, sample_sizes=[list(ns)], params=[[0.0]] * pd)
-    f = dict(feats, sample=list(ns), segment=True)
-    try:
-        if pd == 1:
-            obj.evaluate(start=sub[0][0], stop=sub[0][1])
-        else:
-            kw = {}
-            for a, nm in enumerate('uvw'[:pd]):
-                kw['start_' + nm], kw['stop_' + nm] = sub[a]
-            obj.evaluate(**kw)
-        ep = obj.evalpts
-    except Exception as e:
-        ctx.check('C01.grid.segment', False, rc, f, 'evaluate(start, stop) on a sub-range', repr(e))
-        return
-    total = 1
-    for n in ns:
-        total *= n
-    if ctx.check('C01.grid.segment.size', len(ep) == total, rc, f, total, len(ep)):
-        grids = [[F(a) + (F(b) - F(a)) * F(i, n - 1) for i in range(n)] for (a, b), n in zip(sub, ns)]
-        exp = {}
-        for idx in itertools.product(*[range(n) for n in ns]):
-            flat = idx[0] if pd == 1 else (idx[1] + ns[1] * idx[0] if pd == 2 else idx[2] + ns[2] * (idx[1] + ns[1] * idx[0]))
-            exp[flat] = R.eval_point(model, [g[i] for g, i in zip(grids, idx)])
-        ctx.close('C01.grid.segment.values', ep, [exp[i] for i in range(total)], 1e-9, scale, rc, f)
+    # ... and the same sub-range requested from its far end back to its near end (start > stop): the documented result is the
+    # grid of that range in the order requested, which the pinned tree delivers
+    sub_asc = sub
+    for orient in ('ascending', 'descending', 'mixed'):
+        if orient == 'mixed' and pd == 1:
+            continue
+        sub = [((b, a) if (orient == 'descending' or (orient == 'mixed' and k == pd - 1)) else (a, b)) for k, (a, b) in enumerate(sub_asc)]
+        rc = dict(case, sample_sizes=[list(ns)], params=[[0.0]] * pd, segment_orientation=orient)
+        f = dict(feats, sample=list(ns), segment=True, orientation=orient)
+        try:
+            if pd == 1:
+                obj.evaluate(start=sub[0][0], stop=sub[0][1])
+            else:
+                kw = {}
+                for a, nm in enumerate('uvw'[:pd]):
+                    kw['start_' + nm], kw['stop_' + nm] = sub[a]
+                obj.evaluate(**kw)
+            ep = obj.evalpts
+        except Exception as e:
+            ctx.check('C01.grid.segment', False, rc, f, 'evaluate(start, stop) on a sub-range', repr(e))
+            continue
+        total = 1
+        for n in ns:
+            total *= n
+        if ctx.check('C01.grid.segment.size', len(ep) == total, rc, f, total, len(ep)):
+            grids = [[F(a) + (F(b) - F(a)) * F(i, n - 1) for i in range(n)] for (a, b), n in zip(sub, ns)]
+            exp = {}
+            for idx in itertools.product(*[range(n) for n in ns]):
+                flat = idx[0] if pd == 1 else (idx[1] + ns[1] * idx[0] if pd == 2 else idx[2] + ns[2] * (idx[1] + ns[1] * idx[0]))
+                exp[flat] = R.eval_point(model, [g[i] for g, i in zip(grids, idx)])
+            ctx.close('C01.grid.segment.values', ep, [exp[i] for i in range(total)], 1e-9, scale, rc, f)
     obj.evaluate()
